@@ -59,3 +59,8 @@ claim('C19',
       note="Trusted: the closed forms in checks/c19.py, scipy.stats.chi2. Information matrices with condition number above 300 are not judged. Log-scale cases keep log(p) > 0.4 so central stencils are used (one-sided stencils are only O(eps)). Models are affine (B0 + sum p_k B_k): a purely linear model is degenerate under multinom (scale confounded with theta).",
       technique="property-based testing (Hypothesis): exactness on polynomials, closed-form differential oracle, history sequences vs empty-cache reruns",
       design_ref="DESIGN.md 3/C19")
+claim('C12',
+      text="Each exposed optimiser (opt with BOBYQA / COBYLA / Nelder-Mead, optimize, optimize_log, both L-BFGS-B wrappers, fmin, Powell, SLSQP, grid search) is run on generated synthetic models (1-4 parameters) through a recording wrapper: first evaluation equals the start, no evaluation outside the closed box, fixed parameters untouched in every evaluation and in the result, free ones within bounds, reported optimum equals the likelihood re-evaluated at the returned point, opt never returns worse than the start, natural and log parameterisation; _project_params_up/down inverses; perturb_params within bounds (negative bounds included) without touching the caller's lists.",
+      note="Trusted: the recorder and a re-evaluation with dadi's own ll/ll_multinom (decided under C11). For the log-parameter SciPy wrappers the start is kept a relative 1e-9 inside the bounds: exp(log(b)) can exceed b by one ulp, so a start exactly on a bound cannot satisfy both clauses. Small evaluation budgets; convergence quality is not judged.",
+      technique="property-based testing (Hypothesis) with a recording model wrapper and invariants over the evaluation trace",
+      design_ref="DESIGN.md 3/C12")
